@@ -193,7 +193,11 @@ def run(ctx):
         progs.append(dict(consts=["a", "b"], preds={"f0": (1, 0), "p0": (0, 1)},
                           stmts=[("pf", spine.F(3, 10), ("f0", ("a",))), ("rule", ("p0", ()), [("pos", ("f0", ("b",)))]),
                                  ("fact", ("f0", ("c",)))],
-                          queries=[("f0", ("a",))], evidence=[(("p0", ()), False)]))
+                          queries=[("f0", ("a",)), ("p0", ())], evidence=[(("p0", ()), False)]))
+        progs.append(dict(consts=["a", "b"], preds={"h0": (1, 0), "h1": (1, 0), "p0": (1, 1)},
+                          stmts=[("ad", [(spine.F(1, 10), ("h0", ("a",))), (spine.F(2, 10), ("h1", ("a",)))], []),
+                                 ("rule", ("p0", ("X",)), [("pos", ("h0", ("X",)))])],
+                          queries=[("p0", ("_",)), ("h1", ("a",)), ("h0", ("_",))], evidence=[]))
     import time
     t0 = time.time()
     sems = semcheck.spec_batch(sem_drv, progs)
